@@ -178,10 +178,14 @@ func c01SwapFailOne(c *core.Ctx, dir string, k c01SwapFailCase, want map[string]
 	return snap
 }
 
+// c01SwapFailRan: like the family multi-table this one is called first by c01Run; the call registered with core.Extend is then a no-op.
+var c01SwapFailRan bool
+
 func c01SwapFailRun(c *core.Ctx) {
-	if c01FamilyOff("commit-swap-failure") {
+	if c01SwapFailRan || c01FamilyOff("commit-swap-failure") {
 		return
 	}
+	c01SwapFailRan = true
 	dir := core.Scratch("c01swapfail")
 	var idx int64
 	for _, created := range append([][]string{nil}, c01MTSubsets([]string{"n1", "n2"})...) {
